@@ -854,6 +854,8 @@ coap_oscore_decrypt_pdu(coap_session_t *session,
   uint64_t rsp_saved_last_seq = 0;
   int rsp_last_seq_raised = 0;
   int rsp_seq_validated = 0;
+  coap_bin_const_t rsp_partial_iv = { 0, NULL };
+  uint8_t rsp_partial_iv_data[8];
   coap_bin_const_t pdu_token;
   uint8_t *st_encrypt;
   size_t encrypt_len;
@@ -1322,6 +1324,12 @@ coap_oscore_decrypt_pdu(coap_session_t *session,
 
     /* External AAD */
     cose_encrypt0_set_key_id(cose, snd_ctx->sender_id);
+    /* The response's own Partial IV is wanted again for its Observe value */
+    if (cose->partial_iv.length && cose->partial_iv.length <= sizeof(rsp_partial_iv_data)) {
+      memcpy(rsp_partial_iv_data, cose->partial_iv.s, cose->partial_iv.length);
+      rsp_partial_iv.s = rsp_partial_iv_data;
+      rsp_partial_iv.length = cose->partial_iv.length;
+    }
     cose_encrypt0_set_partial_iv(cose, association->partial_iv);
 #ifdef OSCORE_EXTRA_DEBUG
     dump_cose(cose, "!req pre aad");
@@ -1591,14 +1599,21 @@ coap_oscore_decrypt_pdu(coap_session_t *session,
       break;
     case COAP_OPTION_OBSERVE:
       if (!coap_request) {
-        bias = cose->partial_iv.length > 3 ? cose->partial_iv.length - 3 : 0;
-        len = cose->partial_iv.length > 3 ? 3 : cose->partial_iv.length;
+        /*
+         * RFC8613 4.1.3.5.2: the notification's Partial IV - cose now holds
+         * the request's, which is the same for every notification.
+         */
+        const coap_bin_const_t *piv = rsp_partial_iv.length ? &rsp_partial_iv :
+                                      &cose->partial_iv;
+
+        bias = piv->length > 3 ? piv->length - 3 : 0;
+        len = piv->length > 3 ? 3 : piv->length;
         /* Make Observe option reflect last 3 bytes of partial_iv */
         if (!coap_add_option_internal(
                 decrypt_pdu,
                 opt_iter.number,
                 len,
-                cose->partial_iv.s ? &cose->partial_iv.s[bias] : NULL)) {
+                piv->s ? &piv->s[bias] : NULL)) {
           coap_handle_event_lkd(session->context,
                                 COAP_EVENT_OSCORE_INTERNAL_ERROR,
                                 session);
